@@ -16,8 +16,12 @@ OBLIGATIONS = [
     bound='|coord|<=2^25', desc='double CrossProduct(p1,p2,p3) == exact integer cross product (exact-double lifting; side conditions |v|<=2^53 asserted)'),
   O('C18.c-pip-3', 'c18_pip.cpp', 'harness_pip', defs=['NV=3'], unwind=8, olevel='INL', replace={CP3: 'stub_cp'},
     tiers='x', timeout=3000, bound='triangles, |coord|<=2^25, all query points', desc='PointInPolygon == exact even-odd/on-boundary classification (orientation kernel memoised per edge)'),
+  O('C18.c-pip-3-grid3', 'c18_pip.cpp', 'harness_pip', defs=['NV=3', 'LIM=2'], unwind=8, olevel='INL', replace={CP3: 'stub_cp'}, backend=['kissat', 'cadical', 'sat'],
+    tiers='q', timeout=600, bound='triangles and query points on the grid [-1,1]^2 (all 9^4 placements)', desc='as C18.c-pip-3-grid on the 3x3 grid'),
   O('C18.c-pip-3-grid', 'c18_pip.cpp', 'harness_pip', defs=['NV=3', 'LIM=3'], unwind=8, olevel='INL', replace={CP3: 'stub_cp'}, backend=['kissat', 'cadical', 'sat'],
     tiers='t', timeout=1800, bound='triangles and query points on the grid [-2,2]^2 (all 25^4 placements, degenerate ones included except all-on-one-horizontal)', desc='PointInPolygon == exact even-odd/on-boundary classification; no out-of-bounds vertex access'),
+  O('C18.c-pip-4-grid3', 'c18_pip.cpp', 'harness_pip', defs=['NV=4', 'LIM=2'], unwind=10, olevel='INL', replace={CP3: 'stub_cp'}, backend=['kissat', 'cadical', 'sat'],
+    tiers='t', timeout=2400, bound='quadrilaterals (any, incl. self-intersecting and degenerate) and query points on the grid [-1,1]^2 (all 9^5 placements)', desc='PointInPolygon == exact even-odd/on-boundary classification'),
   O('C18.c-pip-4', 'c18_pip.cpp', 'harness_pip', defs=['NV=4'], unwind=10, olevel='INL', replace={CP3: 'stub_cp'},
     bound='quadrilaterals (any, incl. self-intersecting), |coord|<=2^25', desc='PointInPolygon exact', tiers='x', timeout=1800),
 ]
